@@ -231,11 +231,29 @@ Definition tens_eqb (t1 t2 : tens) : bool :=
 
 Definition outcome_eqb : outcome -> outcome -> bool := res_eqb tens_eqb.
 
-Definition case := (call * outcome)%type.
+(* the same calls made with a uint8 table before commit dc1e643 (max_distance <= 255) *)
+Definition model_u8 (c : call) : outcome :=
+  match c with
+  | CSpacing X maxd sym shape => pairwise_annotations_spacing_u8 X maxd sym shape
+  | _ => model c
+  end.
 
-Definition check_case (c : case) : nat :=
-  let '(cl, o) := c in
-  verdict (outcome_eqb o (model cl)) (spec_ok cl o).
+(* one observed call: the call, what the implementation returned, and whether every argument
+   object of the caller (tensor, ndarray, Series, DataFrame) was bit-identical afterwards.  The
+   property text says nothing about the caller's data, so a modified argument is a disagreement
+   with the (functional) model, not a failure of the spec; what it does to later calls on the
+   same objects is judged by the spec of those calls. *)
+Definition step := (call * outcome * bool)%type.
+
+Definition check_step (s : step) : nat :=
+  let '(cl, o, unchanged) := s in
+  verdict (outcome_eqb o (model cl) && unchanged) (spec_ok cl o).
+
+(* a correspondence case is a sequence of calls made one after the other in one process on
+   shared argument objects; its verdict is the worst verdict of its steps *)
+Definition case := list step.
+
+Definition check_case (c : case) : nat := fold_right (fun s acc => Nat.max (check_step s) acc) 0%nat c.
 
 (* literal helper for the harness: the rational n/d *)
 Definition qc (n : Z) (d : positive) : Qc := Q2Qc (Qmake n d).
